@@ -88,6 +88,10 @@ class PatternSearch(BaseOptimizer):
     @BaseOptimizer.random_iteration
     def iterate(self):
         while True:
+            if len(self.pattern_pos_l) == 0:
+                # every score so far was nan/inf: evaluate() has not regenerated the pattern
+                self.generate_pattern(self.pos_current)
+
             pos_new = self.pattern_pos_l[0]
             self.pattern_pos_l.pop(0)
 
